@@ -4,7 +4,8 @@
    notes of the plain segment that contains them.  Accepted lines are echoed, the first line
    the model does not accept is replaced by "REJECT ..."; then the model's own summary (F line)
    is printed, which must equal the implementation's.
-   Case lines:  loop <be> <loopthr> <hints> / thr <script> ... / [variant <fix_exit> <fix_add>]
+   Case lines:  loop <be> <loopthr> <hints> / thr <script> ... / [cb <handle|bare> <flags|-> [nctx]]
+                / [variant <fix_exit> <fix_add>]
                 / TRACE / <implementation output> *)
 let op_of_string = function
   | "poll" -> OLoad | "eread" -> OXchg | "ewrite" -> OFadd | "mlock" -> OMlock | "munlock" -> OMunlock
@@ -29,6 +30,8 @@ let note_of (text : string) : int * int =
   | ["free"; id] -> (9, int_of_string id)
   | ["wake"] -> (10, 0)
   | ["returned"] -> (11, 0)
+  | ["clear"; id] -> (12, int_of_string id)
+  | ["exitcb"] -> (13, 0)
   | _ -> (99, 0)
 
 let accept (step : sys -> nat -> nat -> (sys * label) option) (st0 : sys) (lines : string list) : sys * bool * bool =
@@ -98,7 +101,8 @@ let handle (lines : string list) : unit =
     | x :: rest -> split (x :: acc) rest
     | [] -> (List.rev acc, []) in
   let (cfg, trace) = split [] lines in
-  let be = ref BEpoll and loopthr = ref 0 and hints = ref 8 and scripts = ref [] and fx = ref true and fa = ref true in
+  let be = ref BEpoll and loopthr = ref 0 and hints = ref 8 and scripts = ref [] and fx = ref true and fa = ref true
+  and bare = ref false and flags = ref "warcmt" and nctx = ref 0 in
   List.iter (fun l -> match words l with
     | ["loop"; b; lt; h] ->
       be := (match b with "select" -> BSelect | "poll" -> BPoll | _ -> BEpoll);
@@ -109,13 +113,23 @@ let handle (lines : string list) : unit =
           (List.init (String.length s) (String.get s)) in
       scripts := !scripts @ [ops]
     | ["variant"; a; b] -> fx := (a <> "0"); fa := (b <> "0")
+    | "cb" :: mode :: fl :: rest ->
+      bare := (mode = "bare"); flags := (if fl = "-" then "" else fl);
+      nctx := (match rest with n :: _ when !bare -> max 0 (min 8 (int_of_string n)) | _ -> 0)
     | _ -> ()) cfg;
+  let has ch = String.contains !flags ch in
   let arr = Array.of_list !scripts in
   let n = Array.length arr in
   if n = 0 || !loopthr >= n then print_endline "F badcase" else begin
     let c = { c_be = !be; c_n = nat_of_int n; c_loop = nat_of_int !loopthr; c_cap = nat_of_int !hints;
               c_scr = (fun t -> let i = int_of_nat t in if i < n then arr.(i) else []);
-              c_fix_exit = !fx; c_fix_add = !fa } in
+              c_fix_exit = !fx; c_fix_add = !fa;
+              c_bare = !bare; c_nctx = nat_of_int !nctx;
+              c_cb_wake = has 'w'; c_cb_add = has 'a';
+              c_cb_release = (if !bare then false else has 'r');
+              c_cb_read = (if !bare then has 'r' else has 'm');
+              c_cb_close = has 'c'; c_cb_clear = (if !bare then has 'l' else true);
+              c_cb_exit = (if !bare then has 'x' else true); c_cb_timer = has 't' } in
     let (st, ok, stuck) = accept (step c) init trace in
     if ok then begin
       let late = if stuck then 0 else List.length (queue st) in
